@@ -822,10 +822,14 @@ func TestVerifC19ConcurrentIndex(t *testing.T) {
 type gateVerifier struct {
 	mode  string
 	calls *int
+	seen  *ArtifactRef // what the verifier was handed (last call)
 }
 
-func (v gateVerifier) VerifyArtifact(_ context.Context, _ ArtifactRef, id trust.PinnedIdentity) (VerifyResult, error) {
+func (v gateVerifier) VerifyArtifact(_ context.Context, ref ArtifactRef, id trust.PinnedIdentity) (VerifyResult, error) {
 	*v.calls++
+	if v.seen != nil {
+		*v.seen = ref
+	}
 	switch v.mode {
 	case "accept":
 		return VerifyResult{Signed: true, VerifiedIdentity: "verif:" + id.OIDCIssuer}, nil
@@ -862,6 +866,8 @@ func TestVerifC19Gates(t *testing.T) {
 		_, _ = w.Write([]byte("trailing garbage"))
 	})
 	mux.HandleFunc("/sig.json", func(w http.ResponseWriter, _ *http.Request) { _, _ = w.Write([]byte(`{"sig":"x"}`)) })
+	mux.HandleFunc("/prov-artifact.json", func(w http.ResponseWriter, _ *http.Request) { _, _ = w.Write([]byte(`{"prov":"artifact"}`)) })
+	mux.HandleFunc("/prov-version.json", func(w http.ResponseWriter, _ *http.Request) { _, _ = w.Write([]byte(`{"prov":"version"}`)) })
 	work := t.TempDir()
 	type gcase struct {
 		Digest, Fetch, Verifier                         string
@@ -885,12 +891,27 @@ func TestVerifC19Gates(t *testing.T) {
 		case "bundle-missing":
 			sigURL = srv.URL + "/no-such-sig.json"
 		}
+		// SLSA provenance declared by the index: at the artifact, at the version, at both (the artifact's wins); reachable or not
+		var artProv, verProv *index.ProvenanceRef
+		switch c.Fetch {
+		case "prov-artifact-ok":
+			artProv = &index.ProvenanceRef{BundleURL: srv.URL + "/prov-artifact.json", PredicateType: "https://slsa.dev/provenance/v1"}
+		case "prov-version-ok":
+			verProv = &index.ProvenanceRef{BundleURL: srv.URL + "/prov-version.json", PredicateType: "https://slsa.dev/provenance/v1"}
+		case "prov-artifact-missing":
+			artProv = &index.ProvenanceRef{BundleURL: srv.URL + "/no-such-prov.json", PredicateType: "https://slsa.dev/provenance/v1"}
+		case "prov-version-missing":
+			verProv = &index.ProvenanceRef{BundleURL: srv.URL + "/no-such-prov.json", PredicateType: "https://slsa.dev/provenance/v1"}
+		case "prov-artifact-missing-version-ok":
+			artProv = &index.ProvenanceRef{BundleURL: srv.URL + "/no-such-prov.json", PredicateType: "https://slsa.dev/provenance/v1"}
+			verProv = &index.ProvenanceRef{BundleURL: srv.URL + "/prov-version.json", PredicateType: "https://slsa.dev/provenance/v1"}
+		}
 		payload := index.Payload{SchemaVersion: 1, Index: index.IndexMeta{Version: 10, Timestamp: time.Now().UTC()},
 			Connectors: []index.Connector{{Name: name,
 				Publisher: index.Publisher{ExpectedOIDCIssuer: "https://token.actions.githubusercontent.com", ExpectedIdentityPattern: `^https://github\.com/example/.*$`},
-				Versions: []index.ConnectorVersion{{Version: "1.0.0", MinConduitVersion: "0.1.0", MinProtocolVersion: "0.1.0",
+				Versions: []index.ConnectorVersion{{Version: "1.0.0", MinConduitVersion: "0.1.0", MinProtocolVersion: "0.1.0", SLSAProvenance: verProv,
 					Artifacts: []index.Artifact{{OS: runtime.GOOS, Arch: runtime.GOARCH, Kind: StandaloneArtifactKind, URL: url,
-						SHA256: dg, Size: int64(len(archive)), Signature: index.SignatureRef{BundleURL: sigURL}}}}}}}}
+						SHA256: dg, Size: int64(len(archive)), Signature: index.SignatureRef{BundleURL: sigURL}, SLSAProvenance: artProv}}}}}}}
 		raw, _ := json.Marshal(payload)
 		canonical, _ := index.Canonicalize(raw)
 		env, _ := json.Marshal(map[string]any{"payload": json.RawMessage(raw), "signatures": []map[string]any{{"role": "root", "keyId": rootKeyID, "algorithm": "ed25519", "signature": base64.StdEncoding.EncodeToString(ed25519.Sign(rootPriv, canonical))}}})
@@ -903,7 +924,8 @@ func TestVerifC19Gates(t *testing.T) {
 	tableDeviations, installedCases, tableExample := 0, 0, ""
 	bools := []bool{false, true}
 	for _, dg := range []string{"ok", "bad"} {
-		for _, fetch := range []string{"ok", "artifact-missing", "artifact-truncated", "artifact-trailing", "bundle-missing"} {
+		for _, fetch := range []string{"ok", "artifact-missing", "artifact-truncated", "artifact-trailing", "bundle-missing",
+			"prov-artifact-ok", "prov-version-ok", "prov-artifact-missing", "prov-version-missing", "prov-artifact-missing-version-ok"} {
 			for _, ver := range []string{"accept", "unsigned-ok", "reject", "error"} {
 				for _, allow := range bools {
 					for sig := 0; sig < 64; sig++ {
@@ -922,9 +944,10 @@ func TestVerifC19Gates(t *testing.T) {
 								t.Fatal(err)
 							}
 							calls := 0
+							var seen ArtifactRef
 							tv := &TrustedVerifier{Anchors: index.TrustAnchors{Roots: map[string]ed25519.PublicKey{rootKeyID: rootPub}}, StatePath: IndexStatePath(connectorsPath)}
 							opts := InstallOptions{Name: name, ConnectorsPath: connectorsPath, IndexFile: writeIndex(c, n), IndexVerifier: tv,
-								ArtifactVerifier: gateVerifier{c.Verifier, &calls}, RunningConduitVersion: "0.14.0", RunningProtocolVersion: "0.1.0",
+								ArtifactVerifier: gateVerifier{c.Verifier, &calls, &seen}, RunningConduitVersion: "0.14.0", RunningProtocolVersion: "0.1.0",
 								DryRun: c.DryRun, LockTimeout: 2 * time.Second, InstalledBy: "verif",
 								AllowUnsigned: c.AllowUnsigned, OperatorAllowUnsigned: c.Operator, IsMCP: c.MCP, TTY: c.TTY, CIEnv: c.CI, EnvVarSet: c.Env, TypedConfirmation: c.Typ}
 							_, ierr := Install(context.Background(), opts)
@@ -934,13 +957,17 @@ func TestVerifC19Gates(t *testing.T) {
 							rep.Transitions(1)
 							key := fmt.Sprintf("%+v", c)
 							rep.State(key)
-							fetched := c.Fetch == "ok" || c.Fetch == "bundle-missing"
+							// a declared provenance bundle that cannot be fetched is, like a missing signature bundle, a failed trust gate of
+							// the signed path (the artifact's own reference is the applicable one when both levels declare one)
+							provMissing := c.Fetch == "prov-artifact-missing" || c.Fetch == "prov-version-missing" || c.Fetch == "prov-artifact-missing-version-ok"
+							provDeclared := provMissing || c.Fetch == "prov-artifact-ok" || c.Fetch == "prov-version-ok"
+							fetched := c.Fetch == "ok" || c.Fetch == "bundle-missing" || provDeclared
 							policyOK := c.Operator && !c.MCP && ((!c.TTY || c.CI) && c.Env || (c.TTY && !c.CI) && c.Typ)
 							trusted := false
 							if c.AllowUnsigned {
 								trusted = policyOK
 							} else {
-								trusted = c.Verifier == "accept" && c.Fetch != "bundle-missing"
+								trusted = c.Verifier == "accept" && c.Fetch != "bundle-missing" && !provMissing
 							}
 							may := fetched && c.Digest == "ok" && trusted && !c.DryRun
 							// what the PROPERTY demands is weaker than the documented policy table: unsigned installs need the
@@ -972,6 +999,15 @@ func TestVerifC19Gates(t *testing.T) {
 							}
 							if len(files) > 0 {
 								installedCases++
+							}
+							if !c.AllowUnsigned && len(files) > 0 && provDeclared {
+								want := `{"prov":"artifact"}`
+								if c.Fetch == "prov-version-ok" {
+									want = `{"prov":"version"}`
+								}
+								if string(seen.ProvenanceBundle) != want {
+									bad("installed-without-the-declared-provenance-being-verified", fmt.Sprintf("the index declares SLSA provenance for the artifact (%s) and the artifact was installed through the signed path, but the verifier was handed provenance %q instead of the declared bundle %q", c.Fetch, seen.ProvenanceBundle, want))
+								}
 							}
 							if (c.Digest == "bad" || !fetched) && calls > 0 {
 								bad("verifier-consulted-on-corrupt-bytes", fmt.Sprintf("the artifact verifier was called %d time(s) although the downloaded bytes do not match the declared digest / were not fetched completely", calls))
